@@ -92,7 +92,7 @@ impl Prop for C13 {
     }
     fn assumptions(&self) -> Vec<String> {
         vec![
-            "termination is checked as 'within a budget about 1000 times the observed maximum'; this cannot distinguish 'for ever' from 'absurdly long', either is reported The same validity conditions are checked on the run with a user-defined node-name type (lossy Display, colliding Hash, Ord unrelated to insertion order) for every graph of <= 12 nodes and one in eight up to 64. Small-scope sweep (exhaustive block): every set of 1..=4 directed / 1..=5 undirected edges on 4 nodes x every assignment of integer weights 1..=6 (thorough 1..=10) x resolution in {0.5, 1, 1.5, 2}, one derived seed each (about 3.1 million louvain_partitions runs in the quick tier, 22 million in the thorough tier), same oracle without the louvain_communities comparison.".into(),
+            "termination is checked as 'within a budget about 1000 times the observed maximum'; this cannot distinguish 'for ever' from 'absurdly long', either is reported The same validity conditions are checked on the run with a user-defined node-name type (lossy Display, colliding Hash, Ord unrelated to insertion order) for every graph of <= 12 nodes and one in eight up to 64. Small-scope sweep (exhaustive block): every set of 1..=4 directed / 1..=5 undirected edges on 4 nodes x every assignment of integer weights 1..=6 (thorough 1..=10) x resolution in {0.5, 1, 1.5, 2}, one derived seed each (about 3.1 million louvain_partitions runs in the quick tier, 22 million in the thorough tier), same oracle without the louvain_communities comparison. Exhaustive block also holds 12 chains of 400..1000 nodes whose weights follow slowly varying laws of the position (ln, ln ln, sqrt, power 0.1, linear, decreasing ln), where one level takes hundreds of sweeps.".into(),
             "weighted = true is only used on graphs whose edges all carry positive weights".into(),
         ]
     }
@@ -133,6 +133,13 @@ impl Prop for C13 {
                         v.push(LouvainCase { g: g.clone(), seed, res: 255, thr: 0, weighted: false, sweep_max_w: None });
                     }
                 }
+            }
+        }
+        // long chains with slowly varying weights (400..1000 nodes x six laws of the position): a
+        // level needs hundreds of sweeps there, each of which still raises the modularity
+        for (n, law) in [(400u32, 1u64), (600, 0), (600, 3), (1000, 2), (600, 5), (400, 4)] {
+            for kind in [0u8, 1] {
+                v.push(LouvainCase { g: GraphCase { kind, n: 0, perm: 0, shape: 1, edges: vec![], wmode: 1, big_n: n, big_seed: law }, seed: n as u64 + law, res: 255, thr: 0, weighted: true, sweep_max_w: None });
             }
         }
         // small-scope sweep: every set of 1..=4 (directed: of the 12 ordered pairs) or 1..=5
